@@ -1,0 +1,42 @@
+// Copyright 2026 Dolthub, Inc.
+//
+// Licensed under the Apache License, Version 2.0 (the "License");
+// you may not use this file except in compliance with the License.
+// You may obtain a copy of the License at
+//
+//     http://www.apache.org/licenses/LICENSE-2.0
+//
+// Unless required by applicable law or agreed to in writing, software
+// distributed under the License is distributed on an "AS IS" BASIS,
+// WITHOUT WARRANTIES OR CONDITIONS OF ANY KIND, either express or implied.
+// See the License for the specific language governing permissions and
+// limitations under the License.
+
+//go:build verif
+
+package datas
+
+import (
+	"context"
+
+	"github.com/dolthub/dolt/go/store/hash"
+	"github.com/dolthub/dolt/go/store/prolly/tree"
+	"github.com/dolthub/dolt/go/store/types"
+)
+
+// VerifFindCommonAncestorUsingParentsList exposes the parents-list merge-base algorithm (the
+// fallback of FindCommonAncestor) to the verification harness.
+func VerifFindCommonAncestorUsingParentsList(ctx context.Context, c1, c2 *Commit, vr1, vr2 types.ValueReader, ns1, ns2 tree.NodeStore) (hash.Hash, bool, error) {
+	return findCommonAncestorUsingParentsList(ctx, c1, c2, vr1, vr2, ns1, ns2)
+}
+
+// VerifCleanWorkingSetAddr returns the address of the working-set message that doSetHead /
+// doFastForward write for a commit whose root value is |root| (working = staged = root, no meta).
+func VerifCleanWorkingSetAddr(nbf *types.NomsBinFormat, root hash.Hash) (hash.Hash, error) {
+	return types.SerialMessage(workingset_flatbuffer(root, &root, nil, nil, nil)).Hash(nbf)
+}
+
+// VerifNodeStore exposes the NodeStore of a Database created by NewDatabase.
+func VerifNodeStore(db Database) tree.NodeStore {
+	return db.(*database).ns
+}
